@@ -10,7 +10,7 @@ SHARD = 500
 RULE = ("triples (a,b,c) of segments in ticks under regimes K0 (eps=0), K4 (eps=4 ticks of 2^-22 s, default "
         "1e-6 precision) and K1 (set_precision(0), eps=1): all pairs over a 6-point grid exhaustively (empty and "
         "inverted segments included) with c cycling over the grid, plus random wide-range triples whose bounds "
-        "are tied to each other by offsets around eps; overlaps(t) also at the quarter ticks around both bounds of a; non-trivial = a and b both non-empty and not equal")
+        "are tied to each other by offsets around eps; overlaps(t) also at the quarter ticks around both bounds of a; copies translated 2 h, 28 h, 3 d or -8 h 20 min from the origin; non-trivial = a and b both non-empty and not equal")
 ASSUMPTIONS = ["float arithmetic on the three grids is exact (DESIGN 2.1); arbitrary reals are represented by their order type"]
 
 GRID = {"K0": [0, 1, 2, 3, 4, 5], "K4": [0, 4, 5, 9, 10, 15], "K1": [0, 1, 2, 3, 4, 5]}
